@@ -19,9 +19,35 @@ Inductive ievent :=
     - aliasing reports: (request index + 1, request index + 1), 0 = the pull function's original. *)
 Definition obs := (list (list ievent) * list N * list (N * list N) * list (N * N))%type.
 
+(** A forced schedule.  [Plain x]: the critical section x ran alone (linearised by the harness).
+    [Overlap img res c]: handleResponse(img, res) was stalled in the middle of its broadcast (on an
+    extra unbuffered receiver the harness put at the head of the entry), and while it was stalled
+    caller c called Pull(img); then the stall was released.  The two operations overlap in time. *)
+Inductive ostep := Plain (x : step) | Overlap (img : N) (res : bool) (c : N).
+
+(** A linearisation of a schedule fixes, for every overlap, which operation took effect first. *)
+Inductive lstep := LPlain (x : step) | LOverlap (img : N) (res : bool) (c : N) (done_first : bool).
+
+Definition forget (l : lstep) : ostep :=
+  match l with LPlain x => Plain x | LOverlap i r c _ => Overlap i r c end.
+
+Definition expand1 (l : lstep) : list step :=
+  match l with
+  | LPlain x => [x]
+  | LOverlap i r c true => [Done i r; Req c i]
+  | LOverlap i r c false => [Req c i; Done i r]
+  end.
+Definition expand (ls : list lstep) : list step := flat_map expand1 ls.
+
+Definition candidates (o : ostep) : list lstep :=
+  match o with
+  | Plain x => [LPlain x]
+  | Overlap i r c => [LOverlap i r c true; LOverlap i r c false]
+  end.
+
 (** A case: the schedule that was forced (including the Done steps the harness appended to
     drain pending pulls) and what the implementation did. *)
-Definition case := (list step * obs)%type.
+Definition case := (list ostep * obs)%type.
 
 Definition erase (e : event) : ievent :=
   match e with
@@ -64,20 +90,62 @@ Fixpoint nodup_N (l : list N) : list N :=
 
 Definition images (steps : list step) : list N := nodup_N (map step_img steps).
 
-(** The model's observation of a schedule. *)
-Definition model_obs (steps : list step) : obs :=
-  (map (map erase) (outs init steps),
-   counts init steps,
-   map (fun i => (i, receivers (run steps) i)) (images steps),
-   []).
+Definition ostep_img (o : ostep) : N := match o with Plain x => step_img x | Overlap i _ _ => i end.
+Definition oimages (os : list ostep) : list N := nodup_N (map ostep_img os).
+
+Definition is_ipull (e : ievent) : bool := match e with IPull _ _ => true | _ => false end.
+Definition pulls_of (l : list ievent) : list ievent := filter is_ipull l.
+Definition resps_of (l : list ievent) : list ievent := filter (fun e => negb (is_ipull e)) l.
+
+(** Events of one (possibly overlapping) step are compared per kind: the relative order of a pull
+    start and the responses inside one overlapping step is not observable. *)
+Definition same_events (a b : list ievent) : bool :=
+  list_eqb ievent_eqb (pulls_of a) (pulls_of b) && list_eqb ievent_eqb (resps_of a) (resps_of b).
+
+(** The sequential model's events for one linearised step, started in state s. *)
+Definition levents (s : state) (l : lstep) : list ievent := concat (map (map erase) (outs s (expand1 l))).
+Definition lnext (s : state) (l : lstep) : state := run_from s (expand1 l).
+
+Fixpoint levs_from (s : state) (ls : list lstep) : list (list ievent) :=
+  match ls with [] => [] | l :: r => levents s l :: levs_from (lnext s l) r end.
+Fixpoint lcounts_from (s : state) (ls : list lstep) : list N :=
+  match ls with [] => [] | l :: r => recv_count (lnext s l) (ostep_img (forget l)) :: lcounts_from (lnext s l) r end.
+
+Definition pend_of (s : state) (os : list ostep) : list (N * list N) :=
+  map (fun i => (i, receivers s i)) (oimages os).
+
+(** The model's observation of a linearised schedule. *)
+Definition model_lobs (ls : list lstep) : obs :=
+  (levs_from init ls, lcounts_from init ls, pend_of (run (expand ls)) (map forget ls), []).
+
+Definition model_obs (steps : list step) : obs := model_lobs (map LPlain steps).
 
 Definition pending_eqb (a b : list (N * list N)) : bool :=
   list_eqb (fun x y => (fst x =? fst y) && list_eqb N.eqb (snd x) (snd y)) a b.
 
-Definition agree (c : case) : bool :=
-  let '(steps, (evs, cnts, pend, alias)) := c in
-  let '(mevs, mcnts, mpend, _) := model_obs steps in
-  list_eqb (list_eqb ievent_eqb) mevs evs && list_eqb N.eqb mcnts cnts && pending_eqb mpend pend.
+(** Linearizability against the sequential model: there is a choice of order for every overlap
+    such that the model, run sequentially, produces the observed events and receiver counts at
+    every step and the observed set of callers that never returned.  [lin_run] carries the model
+    states of all linearisations that explain the observation so far. *)
+Fixpoint lin_run (ss : list state) (os : list ostep) (evss : list (list ievent)) (cnts : list N)
+  : option (list state) :=
+  match os, evss, cnts with
+  | [], [], [] => Some ss
+  | o :: r, evs :: er, n :: cr =>
+      lin_run (flat_map (fun s => flat_map (fun l =>
+                 if same_events (levents s l) evs && (recv_count (lnext s l) (ostep_img o) =? n)
+                 then [lnext s l] else []) (candidates o)) ss) r er cr
+  | _, _, _ => None
+  end.
+
+Definition lin_agree (c : case) : bool :=
+  let '(os, (evs, cnts, pend, alias)) := c in
+  match lin_run [init] os evs cnts with
+  | Some ss => existsb (fun s => pending_eqb (pend_of s os) pend) ss
+  | None => false
+  end.
+
+Definition agree := lin_agree.
 
 (** * The monitor: the property, evaluated on the schedule and the implementation's events only.
     It keeps, per image, the number of the pull it has seen start and not finish, and the callers
@@ -112,21 +180,41 @@ Definition mon_step (m : mstate) (x : step) (evs : list ievent) : option mstate 
       end
   end.
 
-Fixpoint mon_run (m : mstate) (steps : list step) (evss : list (list ievent)) : option mstate :=
-  match steps, evss with
-  | [], [] => Some m
-  | x :: r, evs :: er => match mon_step m x evs with Some m' => mon_run m' r er | None => None end
+Definition opt_list {A} (o : option A) : list A := match o with Some a => [a] | None => [] end.
+Definition obind {A B} (o : option A) (f : A -> option B) : option B := match o with Some a => f a | None => None end.
+
+(** An overlapping step satisfies the property iff it does so in one of the two orders: the request
+    took effect after the broadcast (it must then start a fresh pull) or before it (it must then be
+    answered by this very broadcast).  A request that is registered but neither answered nor followed
+    by a fresh pull is accepted by neither. *)
+Definition mon_ostep (m : mstate) (o : ostep) (evs : list ievent) : list mstate :=
+  match o with
+  | Plain x => opt_list (mon_step m x evs)
+  | Overlap i r c =>
+      let p := pulls_of evs in
+      let q := resps_of evs in
+      opt_list (obind (mon_step m (Done i r) q) (fun m1 => mon_step m1 (Req c i) p)) ++
+      opt_list (obind (mon_step m (Req c i) p) (fun m1 => mon_step m1 (Done i r) q))
+  end.
+
+Fixpoint mon_run (ms : list mstate) (os : list ostep) (evss : list (list ievent)) : option (list mstate) :=
+  match os, evss with
+  | [], [] => Some ms
+  | o :: r, evs :: er => mon_run (flat_map (fun m => mon_ostep m o evs) ms) r er
   | _, _ => None
   end.
 
+Definition mon_final (pend : list (N * list N)) (m : mstate) : bool :=
+  (* whoever has not returned is still (legitimately) waiting for a pull that is in flight *)
+  forallb (fun p => list_eqb N.eqb (snd p) (mwait m (fst p)) &&
+                    (is_nil (snd p) || match mrun m (fst p) with Some _ => true | None => false end)) pend.
+
 Definition monitor (c : case) : bool :=
-  let '(steps, (evs, cnts, pend, alias)) := c in
-  match mon_run minit steps evs with
+  let '(os, (evs, cnts, pend, alias)) := c in
+  match mon_run [minit] os evs with
   | None => false
-  | Some m =>
-      (* whoever has not returned is still (legitimately) waiting for a pull that is in flight *)
-      forallb (fun p => list_eqb N.eqb (snd p) (mwait m (fst p)) &&
-                        (is_nil (snd p) || match mrun m (fst p) with Some _ => true | None => false end)) pend
+  | Some ms =>
+      existsb (mon_final pend) ms
       && is_nil alias                       (* no returned Files map shares memory with another or the original *)
   end.
 
@@ -163,29 +251,108 @@ Proof.
     + cbn [map is_nil]. exists m. split; [reflexivity|]. sim_case Hs img. now rewrite Hr, Hw.
 Qed.
 
-Lemma sim_run steps : forall s m, sim s m ->
-  exists m', mon_run m steps (map (map erase) (outs s steps)) = Some m' /\ sim (run_from s steps) m'.
-Proof.
-  induction steps as [|x r IH]; intros s m Hs; cbn.
-  - exists m. now split.
-  - destruct (sim_step s m x Hs) as (m1 & H1 & Hs1). rewrite H1.
-    destruct (IH _ _ Hs1) as (m2 & H2 & Hs2). exists m2. now split.
-Qed.
-
 Lemma sim_init : sim init minit.
 Proof. intros img. cbn. now split. Qed.
 
-(** The model's observation of *any* schedule satisfies the monitor; in particular that of
-    every well-formed one. *)
-Theorem monitor_sound_all steps : monitor (steps, model_obs steps) = true.
+Lemma pulls_of_app a b : pulls_of (a ++ b) = pulls_of a ++ pulls_of b.
+Proof. apply filter_app. Qed.
+Lemma resps_of_app a b : resps_of (a ++ b) = resps_of a ++ resps_of b.
+Proof. apply filter_app. Qed.
+
+Lemma kinds_done s i r :
+  pulls_of (map erase (step_events s (Done i r))) = [] /\
+  resps_of (map erase (step_events s (Done i r))) = map erase (step_events s (Done i r)).
 Proof.
-  unfold monitor, model_obs. destruct (sim_run steps init minit sim_init) as (m & Hm & Hs).
-  rewrite Hm. rewrite andb_true_iff. split; [|reflexivity].
-  apply forallb_forall. intros [i l] Hin. apply in_map_iff in Hin. destruct Hin as (j & Hj & _).
-  injection Hj as <- <-. cbn [fst snd]. destruct (Hs j) as (Hr & Hw). fold (run steps) in *.
-  rewrite Hw, (proj2 (list_eqb_N_spec _ _) eq_refl). cbn [andb]. rewrite Hr.
-  unfold receivers. destruct (inflight (run steps) j); [now rewrite orb_true_r|reflexivity].
+  cbn. destruct (inflight s i) as [e|]; [|now split]. generalize 0 as k.
+  induction (e_recv e) as [|c l IH]; intros k; cbn; [now split|].
+  destruct (IH (k + 1)) as [H1 H2]. unfold pulls_of, resps_of in *. now rewrite H1, H2.
 Qed.
 
-Theorem monitor_sound steps : wf steps = true -> monitor (steps, model_obs steps) = true.
+Lemma kinds_req s c i :
+  pulls_of (map erase (step_events s (Req c i))) = map erase (step_events s (Req c i)) /\
+  resps_of (map erase (step_events s (Req c i))) = [].
+Proof. cbn. destruct (inflight s i); now split. Qed.
+
+Lemma sim_lstep s m l : sim s m ->
+  exists m', In m' (mon_ostep m (forget l) (levents s l)) /\ sim (lnext s l) m'.
+Proof.
+  intros Hs. destruct l as [x|i r c [|]]; unfold levents, lnext; cbn [expand1 outs map concat forget mon_ostep run_from fold_left].
+  - rewrite app_nil_r. destruct (sim_step s m x Hs) as (m' & H1 & H2). exists m'. rewrite H1. split; [now left|assumption].
+  - rewrite app_nil_r, pulls_of_app, resps_of_app.
+    destruct (kinds_done s i r) as [D1 D2]. destruct (kinds_req (do_step s (Done i r)) c i) as [R1 R2].
+    rewrite D1, D2, R1, R2, app_nil_r. cbn [app].
+    destruct (sim_step s m (Done i r) Hs) as (m1 & H1 & Hs1).
+    destruct (sim_step _ m1 (Req c i) Hs1) as (m2 & H2 & Hs2).
+    exists m2. split; [|assumption]. apply in_or_app. left. rewrite H1. cbn [obind]. rewrite H2. now left.
+  - rewrite app_nil_r, pulls_of_app, resps_of_app.
+    destruct (kinds_req s c i) as [R1 R2]. destruct (kinds_done (do_step s (Req c i)) i r) as [D1 D2].
+    rewrite D1, D2, R1, R2, app_nil_r. cbn [app].
+    destruct (sim_step s m (Req c i) Hs) as (m1 & H1 & Hs1).
+    destruct (sim_step _ m1 (Done i r) Hs1) as (m2 & H2 & Hs2).
+    exists m2. split; [|assumption]. apply in_or_app. right. rewrite H1. cbn [obind]. rewrite H2. now left.
+Qed.
+
+Lemma sim_lrun ls : forall s ms, (exists m, In m ms /\ sim s m) ->
+  exists ms', mon_run ms (map forget ls) (levs_from s ls) = Some ms' /\
+              exists m', In m' ms' /\ sim (run_from s (expand ls)) m'.
+Proof.
+  induction ls as [|l r IH]; intros s ms (m & Hin & Hs); cbn [map levs_from mon_run expand flat_map].
+  - exists ms. split; [reflexivity|]. exists m. now split.
+  - rewrite run_from_app. apply IH.
+    destruct (sim_lstep s m l Hs) as (m' & Hin' & Hs'). exists m'. split; [|exact Hs'].
+    apply in_flat_map. exists m. now split.
+Qed.
+
+(** The model's observation of *any* linearisation of *any* schedule (with or without overlaps,
+    well-formed or not) satisfies the monitor. *)
+Theorem monitor_sound_lin ls : monitor (map forget ls, model_lobs ls) = true.
+Proof.
+  unfold monitor, model_lobs.
+  destruct (sim_lrun ls init [minit]) as (ms & Hm & m & Hin & Hs).
+  { exists minit. split; [now left|apply sim_init]. }
+  rewrite Hm. rewrite andb_true_iff. split; [|reflexivity].
+  apply existsb_exists. exists m. split; [assumption|].
+  apply forallb_forall. intros [i l] Hp. apply in_map_iff in Hp. destruct Hp as (j & Hj & _).
+  injection Hj as <- <-. cbn [fst snd]. destruct (Hs j) as (Hr & Hw). fold (run (expand ls)) in *.
+  rewrite Hw, (proj2 (list_eqb_N_spec _ _) eq_refl). cbn [andb]. rewrite Hr.
+  unfold receivers. destruct (inflight (run (expand ls)) j); [now rewrite orb_true_r|reflexivity].
+Qed.
+
+Lemma forget_plain steps : map forget (map LPlain steps) = map Plain steps.
+Proof. now rewrite map_map. Qed.
+
+Theorem monitor_sound_all steps : monitor (map Plain steps, model_obs steps) = true.
+Proof. rewrite <- forget_plain. apply monitor_sound_lin. Qed.
+
+Theorem monitor_sound steps : wf steps = true -> monitor (map Plain steps, model_obs steps) = true.
 Proof. intros _. apply monitor_sound_all. Qed.
+
+(** The model's own observation is linearizable (by the linearisation that produced it). *)
+Lemma same_events_refl l : same_events l l = true.
+Proof. unfold same_events. now rewrite !ievents_eqb_refl. Qed.
+
+Lemma pending_eqb_refl p : pending_eqb p p = true.
+Proof.
+  unfold pending_eqb. induction p as [|[i l] p IH]; cbn; [reflexivity|].
+  now rewrite N.eqb_refl, (proj2 (list_eqb_N_spec _ _) eq_refl), IH.
+Qed.
+
+Lemma candidates_forget l : In l (candidates (forget l)).
+Proof. destruct l as [x|i r c [|]]; cbn; auto. Qed.
+
+Lemma lin_run_model ls : forall s ss, In s ss ->
+  exists ss', lin_run ss (map forget ls) (levs_from s ls) (lcounts_from s ls) = Some ss' /\
+              In (run_from s (expand ls)) ss'.
+Proof.
+  induction ls as [|l r IH]; intros s ss Hin; cbn [map levs_from lcounts_from lin_run expand flat_map].
+  - exists ss. now split.
+  - rewrite run_from_app. apply IH. apply in_flat_map. exists s. split; [assumption|].
+    apply in_flat_map. exists l. split; [apply candidates_forget|].
+    rewrite same_events_refl, N.eqb_refl. now left.
+Qed.
+
+Theorem lin_agree_model ls : lin_agree (map forget ls, model_lobs ls) = true.
+Proof.
+  unfold lin_agree, model_lobs. destruct (lin_run_model ls init [init]) as (ss & H & Hin); [now left|].
+  rewrite H. apply existsb_exists. exists (run (expand ls)). split; [assumption|apply pending_eqb_refl].
+Qed.
